@@ -147,7 +147,7 @@ def gen_plan(prop, r, tier, run):
                         'out.txt', 'data.csv', 'ref/other/STDOUT',
                         'test_other.py', 'result.txt'])
             by.append({'path': p, 'text': gc.gen_text(r, ident, now, 3),
-                       'age': r.pick([0, 0, 5, 3600])})
+                       'age': r.pick([0, 0, 5, 3600, -400 * 86400])})
     if r.chance(0.3):
         # the command was run here before: older copies of its own outputs
         for e in prog['effects']:
@@ -550,6 +550,15 @@ def execute(plan):
                 with io.open(p, 'wb') as f:
                     f.write(bind_root(b['text'], W.root).encode('utf-8'))
                 sim.ctimes[os.path.abspath(p)] = -float(b.get('age', 0))
+                if b.get('age', 0) < 0:
+                    # a file dated in the future (unpacked from an archive
+                    # made on a machine with a fast clock): old as far as
+                    # change time goes, "new" by modification time
+                    import time as _time
+                    fut = _time.time() - float(b['age'])
+                    os.utime(p, (fut, fut))
+                    sim.ctimes[os.path.abspath(p)] = -3600.0
+                    ctx.stats['faults']['bystander_dated_in_the_future'] += 1
             with Patches(gentest, sim, W, ident):
                 ctx.last_gen = None
                 ctx.baseline_pass = None
